@@ -10,7 +10,10 @@ TEXTS = ['abc', 'a b', 'two  spaces', 'semi;colon', 'hash # tag', 'k=v',
          'a}', '{x}', 'a{b}c', '}', '"quoted"', "'q'", ' lead', 'trail ',
          '30"', 'x # y {z}', 'a}"',
          # characters outside ASCII
-         'Sgr A\u2605', 'caf\u00e9 au lait', '\u03b1 Cen', '5\u2033 N']
+         'Sgr A\u2605', 'caf\u00e9 au lait', '\u03b1 Cen', '5\u2033 N',
+         # characters that str.splitlines() takes for line ends, DS9 does not
+         'NGC 1234\u2028field A', 'a\x0bb', 'x\x85y', 'form\x0cfeed',
+         'p\u2029q', 'fs\x1cgs\x1drs\x1e']
 NUMERIC_TEXTS = ['007', '42', '1e3', '3.50', '-0', 'nan', 'inf', '0x10', '1_000']
 COLORS = ['red', 'green', 'blue', 'cyan', 'magenta', 'yellow', 'black',
           'white', '#ff00aa', '#0F0', '#123456']
